@@ -82,6 +82,8 @@ type env struct {
 	origChk  map[uint64]string
 	nSeries  int
 	lastSref uint64
+	bw       *tsdb.BlockWriter
+	blocks   []string // directories of the blocks written by BlockWriter / compaction
 }
 
 func (e *env) close() {
@@ -96,6 +98,10 @@ func (e *env) close() {
 	if e.ir != nil {
 		e.ir.Close()
 		e.ir = nil
+	}
+	if e.bw != nil {
+		e.bw.Close()
+		e.bw = nil
 	}
 	if e.dir != "" {
 		os.RemoveAll(e.dir)
@@ -543,9 +549,13 @@ func (e *env) exec(op string) string {
 		}
 		e.ir = ir
 		ps, err := ir.Postings(context.Background(), "", "")
-		fatal(err)
+		if err != nil {
+			return "err-all-postings"
+		}
 		e.ids, err = index.ExpandPostings(ps)
-		fatal(err)
+		if err != nil {
+			return "err-all-postings"
+		}
 		e.origSer = nil
 		for _, id := range e.ids {
 			e.origSer = append(e.origSer, readSeries(ir, id))
@@ -679,6 +689,81 @@ func (e *env) exec(op string) string {
 			}
 		}
 		return fmt.Sprintf("%s rest=%d errs=%d", out, rest, errs)
+	case "bw": // tsdb.NewBlockWriter
+		if e.bw != nil {
+			return "bad-op"
+		}
+		w, err := tsdb.NewBlockWriter(promslog.NewNopLogger(), filepath.Join(e.dir, "blocks"), 2*3600*1000)
+		fatal(err)
+		e.bw = w
+		return "ok"
+	case "app": // app <lbls> <t> <value bits>
+		if e.bw == nil || len(f) != 4 {
+			return "bad-op"
+		}
+		ls, ok := parseLbls(f[1])
+		t, e1 := strconv.ParseInt(f[2], 10, 64)
+		v, e2 := strconv.ParseUint(f[3], 16, 64)
+		if !ok || e1 != nil || e2 != nil {
+			return "bad-op"
+		}
+		var sb labels.ScratchBuilder
+		for i := 0; i+1 < len(ls); i += 2 {
+			sb.Add(ls[i], ls[i+1])
+		}
+		a := e.bw.Appender(context.Background())
+		if _, err := a.Append(0, sb.Labels(), t, math.Float64frombits(v)); err != nil {
+			a.Rollback()
+			return "err"
+		}
+		if err := a.Commit(); err != nil {
+			return "err"
+		}
+		return "ok"
+	case "flush":
+		if e.bw == nil {
+			return "bad-op"
+		}
+		id, err := e.bw.Flush(context.Background())
+		e.bw.Close()
+		e.bw = nil
+		if errors.Is(err, tsdb.ErrNoSeriesAppended) {
+			return "err-empty"
+		}
+		if err != nil {
+			return "err"
+		}
+		e.blocks = append(e.blocks, filepath.Join(e.dir, "blocks", id.String()))
+		return "ok"
+	case "q": // q <n>: all samples of block n through OpenBlock + querier
+		if len(f) != 2 {
+			return "bad-op"
+		}
+		n, err := strconv.Atoi(f[1])
+		if err != nil || n < 1 || n > len(e.blocks) {
+			return "bad-op"
+		}
+		return queryBlock(e.blocks[n-1])
+	case "compact": // compact <n,m,…>: LeveledCompactor.Compact of the listed blocks into a new one
+		if len(f) != 2 {
+			return "bad-op"
+		}
+		var dirs []string
+		for _, t := range strings.Split(f[1], ",") {
+			n, err := strconv.Atoi(t)
+			if err != nil || n < 1 || n > len(e.blocks) {
+				return "bad-op"
+			}
+			dirs = append(dirs, e.blocks[n-1])
+		}
+		lc, err := tsdb.NewLeveledCompactor(context.Background(), nil, promslog.NewNopLogger(), []int64{2 * 3600 * 1000}, nil, nil)
+		fatal(err)
+		ids, err := lc.Compact(filepath.Join(e.dir, "blocks"), dirs, nil)
+		if err != nil || len(ids) != 1 {
+			return "err"
+		}
+		e.blocks = append(e.blocks, filepath.Join(e.dir, "blocks", ids[0].String()))
+		return "ok"
 	case "openq": // OpenBlock + ChunkQuerier over everything
 		if e.idx == nil || e.segs == nil {
 			return "bad-op"
@@ -729,6 +814,53 @@ func (e *env) openq() (out string) {
 				c = strings.Join(cs, ";")
 			}
 			parts = append(parts, lblStr(s.Labels())+"|"+c)
+		}
+		if ss.Err() != nil {
+			out = "err"
+			return
+		}
+		out = strings.TrimSpace("ok " + strings.Join(parts, " "))
+	})
+	if p {
+		return fmt.Sprintf("panic %T %v", v, v)
+	}
+	return out
+}
+
+func queryBlock(dir string) (out string) {
+	p, v := h.Try(func() {
+		b, err := tsdb.OpenBlock(promslog.NewNopLogger(), dir, nil, nil)
+		if err != nil {
+			out = "openerr"
+			return
+		}
+		defer b.Close()
+		q, err := tsdb.NewBlockQuerier(b, math.MinInt64, math.MaxInt64)
+		if err != nil {
+			out = "err"
+			return
+		}
+		defer q.Close()
+		ss := q.Select(context.Background(), true, nil, labels.MustNewMatcher(labels.MatchRegexp, "\x00none", ".*"))
+		var parts []string
+		var it chunkenc.Iterator
+		for ss.Next() {
+			s := ss.At()
+			it = s.Iterator(it)
+			var sm []string
+			for vt := it.Next(); vt != chunkenc.ValNone; vt = it.Next() {
+				if vt != chunkenc.ValFloat {
+					out = "err-type"
+					return
+				}
+				t, v := it.At()
+				sm = append(sm, fmt.Sprintf("%d:%016x", t, math.Float64bits(v)))
+			}
+			if it.Err() != nil {
+				out = "err"
+				return
+			}
+			parts = append(parts, lblStr(s.Labels())+"|"+strings.Join(sm, ","))
 		}
 		if ss.Err() != nil {
 			out = "err"
@@ -1301,6 +1433,86 @@ func (e *env) sweepChunks(stride int) {
 	}
 }
 
+var valueBits = []uint64{0, 0x8000000000000000, 0x3ff0000000000000, 0xbff0000000000000, 0x3ff8000000000000, 0x7ff0000000000000, 0xfff0000000000000,
+	0x7ff8000000000001, 0x7ff0000000000002, 0x0000000000000001, 0x7fefffffffffffff, 0x40f86a0000000000}
+
+// genWriterCase: samples → tsdb.BlockWriter → block → OpenBlock + querier (twice), then compaction of one or
+// two such blocks and the same query on the result.
+func genWriterCase(c *h.Ctx, id string, thorough bool) {
+	r := c.Rng
+	c.Case(id)
+	e := &env{c: c, dir: h.TempDir("verif-block-")}
+	defer e.close()
+	base := h.PickI64(r, []int64{0, -1500000, -3000000, 1600000000000, 1 << 40, -(1 << 40)})
+	lsets := genLsets(r, 1+r.Intn(5), false)
+	nblocks := 1 + r.Intn(2)
+	overlap := r.Chance(40)
+	total := 0
+	for b := 0; b < nblocks; b++ {
+		e.op("bw")
+		lo := base + int64(b)*3000000
+		if overlap {
+			lo = base + int64(b) // interleaved: block 0 even offsets, block 1 odd offsets
+		}
+		empty := true
+		for _, l := range lsets {
+			if r.Chance(25) && !(b == 0 && empty) {
+				continue // series absent from this block
+			}
+			n := 1 + r.Intn(20)
+			if r.Chance(15) {
+				n = 121 + r.Intn(140) // more than one chunk
+			}
+			t := lo + 2*int64(r.Intn(50))
+			for k := 0; k < n && t < lo+2900000; k++ {
+				v := h.Pick(r, valueBits)
+				if r.Chance(40) {
+					v = math.Float64bits(float64(r.Intn(1000)) / 4)
+				}
+				if r.Chance(5) {
+					v = r.U64()
+				}
+				o := e.op(fmt.Sprintf("app %s %d %016x", lsetStr(l), t, v))
+				c.Count("app:" + o)
+				empty = false
+				total++
+				if r.Chance(3) { // same timestamp again: same value is accepted silently, another one is an error
+					v2 := v
+					if r.Bool() {
+						v2 = v ^ 1
+					}
+					o := e.op(fmt.Sprintf("app %s %d %016x", lsetStr(l), t, v2))
+					c.Count("app-dup:" + o)
+				}
+				if r.Chance(2) { // older than the last sample of the series
+					o := e.op(fmt.Sprintf("app %s %d %016x", lsetStr(l), t-2, v))
+					c.Count("app-ooo:" + o)
+				}
+				t += 2 * int64(1+r.Intn(2000))
+			}
+		}
+		o := e.op("flush")
+		c.Count("flush:" + o)
+	}
+	for n := 1; n <= len(e.blocks); n++ {
+		e.op(fmt.Sprintf("q %d", n))
+		e.op(fmt.Sprintf("q %d", n)) // the block is opened again
+	}
+	if len(e.blocks) > 0 {
+		var ns []string
+		for n := 1; n <= len(e.blocks); n++ {
+			ns = append(ns, strconv.Itoa(n))
+		}
+		o := e.op("compact " + strings.Join(ns, ","))
+		c.Count("compact:" + o)
+		if o == "ok" {
+			e.op(fmt.Sprintf("q %d", len(e.blocks)))
+			e.op(fmt.Sprintf("q %d", len(e.blocks)))
+		}
+	}
+	c.NonTrivial(fmt.Sprintf("writer blocks=%d overlap=%v samples=%d series=%d", nblocks, overlap, total, len(lsets)))
+}
+
 func replayCase(c *h.Ctx, lines []string) {
 	c.Case(strings.TrimPrefix(lines[0], "case "))
 	e := &env{c: c, dir: h.TempDir("verif-block-")}
@@ -1320,14 +1532,22 @@ func main() {
 	}
 	c := h.Init()
 	if c.Replay != "" {
+		os.Setenv("TMPDIR", h.TempDir("verif-block-tmp-"))
 		for _, lines := range c.ReplayCases() {
 			replayCase(c, lines)
 		}
 		c.Finish()
+		os.RemoveAll(os.Getenv("TMPDIR"))
 		return
 	}
+	os.Setenv("TMPDIR", h.TempDir("verif-block-tmp-")) // BlockWriter keeps its head chunks under os.TempDir()
+	defer os.RemoveAll(os.Getenv("TMPDIR"))
 	for i := 0; i < c.N; i++ {
-		genCase(c, fmt.Sprintf("b%d-%d", c.Seed, i), c.Tier == "thorough")
+		if i%4 == 3 {
+			genWriterCase(c, fmt.Sprintf("w%d-%d", c.Seed, i), c.Tier == "thorough")
+		} else {
+			genCase(c, fmt.Sprintf("b%d-%d", c.Seed, i), c.Tier == "thorough")
+		}
 	}
 	c.Finish()
 }
